@@ -14,7 +14,7 @@ sender's PV known, accurate and inside, NON-AREA only when outside; the forwarde
 shape and source address) and that EVERY emission of the GBC origination / forwarding functions lies under an explicit
 AREA or NON-AREA outcome - a send that bypasses the selection or sits under "not one value" fails -, handlers that
 forward without the selection applying the sender-inside discard inline, on a sender entry read after this packet was filed in
-the location table.
+the location table; once the indication of a station inside the area is built, every later return hands it back unless F < 0.
 Does not decide the numerical accuracy of the distance projection over the continuous plane, pole behaviour, nor that
 the meridian correction is numerically right (only that one is present).
 """
@@ -558,6 +558,15 @@ def _later_sibling_top(fl, stmt: ast.AST, target: ast.AST):
     return None
 
 
+def _f_local(fi) -> str:
+    """name of the local that holds F(ego) in a receive handler (`area_f = self.gn_geometric_function_f(...)`)"""
+    for n_ in ast.walk(fi.node):
+        if isinstance(n_, ast.Assign) and isinstance(n_.targets[0], ast.Name) and isinstance(n_.value, ast.Call) and \
+                (dotted(n_.value.func) or "").endswith("gn_geometric_function_f"):
+            return n_.targets[0].id
+    return "area_f"
+
+
 def annex_d(ctx, handlers):
     P = ctx.prog
     # the sender's table entry that feeds a forwarding decision (Annex D "sender inside the area", PDR enforcement) is read
@@ -585,6 +594,46 @@ def annex_d(ctx, handlers):
                    f"{h.fi.module.rel}:{c.lineno}")
     if n_rd < 1:
         raise AnalysisError("C07: no handler reads the sender's location-table entry any more (confirmed: GAC forwarder)")
+    # inside => delivered: once the indication for a station inside the area has been built and kept in a local, every later
+    # return of the handler's try body hands that local back unless the station is known to be outside (F < 0).  A `return None`
+    # on the hop-limit / size / rate shortcuts of the FORWARDING part throws the payload of the last hop away.
+    n_keep = 0
+    for name in ("gn_data_indicate_gbc", "gn_data_indicate_gac"):
+        h = handlers.get(name)
+        if h is None:
+            continue
+        hfl = ctx.flows.get(h.fi)
+        for t_ in [x for x in ast.walk(h.fi.node) if isinstance(x, ast.Try)]:
+            built = None
+            for i_, st_ in enumerate(t_.body):
+                for a_ in ast.walk(st_):
+                    if isinstance(a_, (ast.Assign, ast.AnnAssign)) and isinstance(getattr(a_, "value", None), ast.Call) and \
+                            (dotted(a_.value.func) or "").endswith("GNDataIndication"):
+                        tg_ = a_.targets[0] if isinstance(a_, ast.Assign) else a_.target
+                        if isinstance(tg_, ast.Name) and not isinstance(st_, ast.Return):
+                            built = (i_, tg_.id)
+                if built:
+                    break
+            if not built:
+                continue
+            n_keep += 1
+            lost = []
+            for st_ in t_.body[built[0] + 1:]:
+                for r_ in [x for x in ast.walk(st_) if isinstance(x, ast.Return)]:
+                    if isinstance(r_.value, ast.Name) and r_.value.id == built[1]:
+                        continue
+                    try:
+                        outside = sem.holds(sem.facts(hfl, r_), f"{_f_local(h.fi)} < 0")
+                    except Exception:  # noqa
+                        outside = False
+                    if not outside:
+                        lost.append(r_.lineno)
+            ctx.ob("C07.annex-d", h.fi.short(), "inside-is-delivered-whatever-the-forwarding-decides", not lost,
+                   f"every return after the indication was built hands `{built[1]}` back (or the station is known to be outside)" if not lost else
+                   f"the return at line {lost[0]} drops the indication although the station may be inside the area: a packet on its last hop "
+                   "(or over the size / rate limit) is not delivered to the stations it was sent to", f"{h.fi.module.rel}:{lost[0] if lost else t_.lineno}")
+    if n_keep < 1:
+        raise AnalysisError("C07: no receive handler keeps its indication in a local any more (confirmed: GBC)")
     fi = P.func(f"{ROUTER}.gn_forwarding_algorithm_selection")
     fl = ctx.flows.get(fi)
     if len(fi.params) < 3:
